@@ -256,6 +256,12 @@ func frozenCompare(p *Prog, r *Report, rule, site string, fn *ssa.Function, got,
 		}
 	}
 	for x, n := range w {
+		if strings.HasPrefix(x, "range-end: ") {
+			// whether the end of an inner loop still counts as "nothing more for this element"
+			// depends on what follows the loop (a collected batch appended afterwards is progress);
+			// the row stays audited, its absence is not a finding
+			continue
+		}
 		if h[x] < n {
 			r.Fail(rule, site+":missing:"+short(x, 120), p.Pos(fn.Pos()), "the audited decision '"+x+"' is gone or was rewritten")
 		}
